@@ -545,7 +545,7 @@ theorem foldl_congr_mem {α β : Type} (f g : β → α → β) (l : List α) (i
     exact ih _ (fun acc y hy => h acc y (List.mem_cons_of_mem _ hy))
 
 theorem earliestStart_lift (σ : St) (a : TSt) (deps : List Dep) (base : Int) (h : ∀ dp ∈ deps, dp.target ≠ σ.ts.size) :
-    earliestStart (lift σ a) deps base = earliestStart σ deps base := by
+    earliestStart e (lift σ a) deps base = earliestStart e σ deps base := by
   unfold earliestStart
   induction deps generalizing base with
   | nil => rfl
@@ -567,6 +567,21 @@ theorem backToWork_env (p : Int → Bool) (f : Nat) (c : Int) : backToWork (ext 
   induction f generalizing c with
   | zero => rfl
   | succ f ih => unfold backToWork; simp only [ih]
+
+theorem lenWalk_env (f : Nat) (rem i dt : Int) : lenWalk (ext e zd) f rem i dt = lenWalk e f rem i dt := by
+  induction f generalizing rem i dt with
+  | zero => rfl
+  | succ f ih =>
+    unfold lenWalk
+    rw [show (ext e zd).upper = e.upper from rfl, show (ext e zd).projWork = e.projWork from rfl,
+      show (ext e zd).G = e.G from rfl, show (ext e zd).time = e.time from rfl]
+    simp only [ih]
+
+theorem earliestStart_env (σ : St) (deps : List Dep) (base : Int) :
+    earliestStart (ext e zd) σ deps base = earliestStart e σ deps base := by
+  unfold earliestStart depDate
+  simp only [lenWalk_env]
+  rfl
 
 theorem fwdToWork_env (f : Nat) (c : Int) : fwdToWork (ext e zd) f c = fwdToWork e f c := by
   induction f generalizing c with
@@ -596,10 +611,10 @@ theorem initCursor_ext (hi : Intr e zd) (σ : St) (a : TSt) (t : Nat) (h : t ≠
     simp only []
     split
     · rfl
-    · rw [earliestStart_lift σ a _ _ hdeps]; rfl
+    · rw [earliestStart_env, earliestStart_lift e σ a _ _ hdeps]; rfl
   | none =>
     simp only []
-    rw [earliestStart_lift σ a _ _ hdeps]; rfl
+    rw [earliestStart_env, earliestStart_lift e σ a _ _ hdeps]; rfl
 
 theorem preStartCursor_ext (σ : St) (a : TSt) (t : Nat) (c0 : Int) (h : t ≠ e.tasks.size) (hsz : σ.ts.size = e.tasks.size) :
     preStartCursor (ext e zd) (lift σ a) t c0 = preStartCursor e σ t c0 := by
